@@ -291,3 +291,51 @@ func VerifC05_SubsetHealth() {
 	VerifC15_SubsetHealth()
 	verif.Cover("subset-health")
 }
+
+// VerifC15_SubsetFourHosts: four hosts with every assignment of two values to
+// two metadata keys, selectors [k1] and [k2]: for single-key criteria both
+// builders send the request only to hosts carrying the pair and report the
+// subset's true size (distinct subsets whose host-index sets have the same
+// minimum, maximum and size occur here, which three hosts cannot produce).
+func VerifC15_SubsetFourHosts() {
+	verif.Replace("math/rand.NewSource", func(int64) rand.Source { return zzAnySource{} })
+	var hs []types.Host
+	for i := 0; i < 4; i++ {
+		h := &zzMetaHost{meta: api.Metadata{"k1": []string{"a", "b"}[verif.Choose("v1", 2)], "k2": []string{"a", "b"}[verif.Choose("v2", 2)]}}
+		h.name, h.healthy, h.weight = zzHostNames[i], true, 10
+		hs = append(hs, h)
+	}
+	cfg := &v2.LBSubsetConfig{FallBackPolicy: 0, SubsetSelectors: [][]string{{"k1"}, {"k2"}}}
+	info := &zzSubInfo{sub: NewLBSubsetInfo(cfg), st: &types.ClusterStats{LBSubSetsFallBack: &zzLBCounter{}, LBSubsetsCreated: &zzSubGauge{}}}
+	for variant := 0; variant < 2; variant++ {
+		var lb types.LoadBalancer
+		if variant == 0 {
+			lb = NewSubsetLoadBalancer(info, NewHostSet(hs))
+		} else {
+			lb = NewSubsetLoadBalancerPreIndex(info, NewHostSet(hs))
+		}
+		for _, k := range []string{"k1", "k2"} {
+			for _, v := range []string{"a", "b"} {
+				crit := []zzCriterion{{k, v}}
+				ctx := &zzSubCtx{ctx: variable.NewVariableContext(context.Background())}
+				ctx.crit = &zzCriteria{[]api.MetadataMatchCriterion{&crit[0]}}
+				matching := 0
+				for _, h := range hs {
+					if zzHas(h, crit) {
+						matching++
+					}
+				}
+				verif.Assert(lb.HostNum(ctx.crit) == matching, "HostNum of a subset differs from the number of hosts carrying the pair")
+				// every host of the subset's balancer: round-robin visits them all in `matching` picks
+				for pick := 0; pick < matching; pick++ {
+					r := lb.ChooseHost(ctx)
+					verif.Assert(r != nil && zzHas(r, crit), "a request was sent to a host that does not carry the criteria pair")
+				}
+				if matching == 0 {
+					verif.Assert(lb.ChooseHost(ctx) == nil, "no host carries the pair and fallback is none: no host")
+				}
+			}
+		}
+	}
+	verif.Cover("end")
+}
